@@ -39,32 +39,19 @@ theorem widenL_declTy_has (p : LProg) (x : Nat) : (p.declTy x).has (p.initEnv.ge
       · exact widen_has (lit_ty_has l)
       · exact lit_ty_has l
 
-theorem declTyL_ne_unknown (p : LProg) (x : Nat) : p.declTy x ≠ .unknown := by
-  unfold LProg.declTy
-  split
-  · simp
-  · rename_i l _
-    split <;> cases l <;> simp [Lit.ty, widen]
-
 theorem initPtL_sound (W : Nat → Bool) (p : LProg) : SoundPt W p.initEnv p.initPt := by
   unfold LProg.initPt
   apply soundSt_mk (by simp [LProg.initEnv])
   intro x _ _ m
   cases m <;> simpa [Res3.get, Res.has, has_single] using widenL_declTy_has p x
 
-theorem initPtL_wf (p : LProg) : WfPt p.initPt := by
-  unfold LProg.initPt
-  apply wfSt_mk
-  intro x _
-  simp only [NoUnkRes, Res.intoType, List.mem_cons, List.not_mem_nil, or_false]
-  exact fun h => declTyL_ne_unknown p x h.symm
-
 /-- decidable side condition for stored-type guards (see `C15.storedSafe`) -/
 def storedSafe (p : LProg) (S : List (Nat × TName)) : Bool :=
   p.body.ok S && S.all fun q => (p.initEnv.get q.1).typeName == q.2
 
-/-- **C41_partial.** Let `W` be any set of variables containing every variable that some loop body assigns
-(`loopOK`; assignments outside loops are unrestricted, loop bodies may assign the variables of `W` freely).
+/-- **C41_partial.** Let `W` be any set of variables containing every variable that some loop body assigns and closed
+under `x = y` (`y ∈ W → x ∈ W`) (`loopOK`; assignments outside loops are otherwise unrestricted, loop bodies may
+assign the variables of `W` freely).
 For every `FL` program, every fuel and every terminating run: if the run reaches probe `id` with `x = v` and
 `x ∉ W`, the type inferred for `x` at that probe — inside a loop body, on a loop's exit path or anywhere after
 the loop — contains `v`. (Per-variable statement: the variables a loop assigns are exactly where the open findings
@@ -81,7 +68,7 @@ theorem C41_partial (p : LProg) (W : Nat → Bool) (S : List (Nat × TName)) (hW
     simp only [hr, Option.map_some, Option.some.injEq] at h
     subst h
     have hs := (LBlock.sound (W := W) (S := S) p.decls.length p.declTy fuel p.body p.initPt p.initEnv r hW hS.1
-      (by simp [LProg.initEnv]) (fun q hq => hS.2 q hq) (initPtL_wf p) (initPtL_sound W p) hr).obs
+      (by simp [LProg.initEnv]) (fun q hq => hS.2 q hq) (initPtL_sound W p) hr).obs
     exact hs (id, x, v) hv hx
 
 /-- `C41_partial` for programs whose loop bodies assign nothing: every probe of every variable is covered. -/
